@@ -18,6 +18,8 @@ def nontrivial(engine, opline):
     if engine == 'block':
         # non-trivial: a transaction line that was admitted (not a begin/end line, not refused at admission)
         return bool(t) and t[0] in ('eth', 'cos')
+    if engine == 'erc20':
+        return bool(t) and t[0] in ('erc', 'esend')
     if engine == 'vauth':
         return bool(t) and t[0] == 'vsubmit'
     if engine == 'ante':
@@ -127,6 +129,19 @@ PROPS['C16'] = dict(
     assumptions=['cryptography is symbolic: well-formedness, the address Ecrecover(keccak(message), sig) yields and lower-case-ness are computed by the harness with go-ethereum crypto (independently of x/vauth/utils) and fed to the model',
                  'unforgeability of ECDSA and collision resistance of Keccak are not proved (C19)',
                  'routes that execute messages outside the tx path (gov proposals, ICA host) are outside the model'],
+)
+
+PROPS['C10'] = dict(
+    lean_modules=['Model.Erc20', 'Properties.C10', 'Facts.Erc20'],
+    facts=['*'],
+    theorems=['C10_views_exact', 'C10_fail_is_noop', 'C10_transfer_exact', 'C10_burn_exact', 'C10_transferFrom_exact', 'C10_burnFrom_exact',
+              'C10_approve_exact', 'C10_full_fails', 'C10_allowance_safety_partial', 'xfer_spec', 'spendAllowance_spec', 'spendIfOther_spec',
+              'ghostAgree_step', 'ghostAgree_run', 'spend_needs_allowance',
+              'fact_allowance_key', 'fact_erc20_method_table', 'fact_erc20_selectors', 'fact_erc20_views_write_nothing', 'fact_erc20_writes_no_mint'],
+    engines=[dict(name='erc20', test='TestEngineErc20', quick=1500, thorough=40000, thorough_seeds=3)],
+    rule='random ERC-20 precompile call sequences over two tokens / two bank denominations (8 methods, callers: EOAs, two forwarder contracts, zero address, module accounts, an address without account; amounts 0, 1, balance, balance+1, 2^256-1, half, small random), interleaved with native MsgSend, through EvmKeeper.ApplyMessage(commit); after every op all balances, supplies and the whole allowance table are compared; non-trivial = every call/send line; distinct by op-line hash',
+    assumptions=['atomicity of a failing call is the frame revert of C03', 'amounts are ABI-decoded uint256 (< 2^256)',
+                 'vesting-locked balances are outside E-erc20 (C15)', 'calls run through ApplyMessage (no ante handler): fee handling is C04/C05'],
 )
 
 NOT_APPLICABLE = {}
